@@ -6,7 +6,7 @@
    property itself is false of the code (known findings). *)
 From Coq Require Import List NArith Bool.
 Import ListNotations.
-From GMS Require Import Sys.Redact Sys.RedactProofs.
+From GMS Require Import Sys.Redact Sys.RedactProofs Sys.RedactConc.
 
 (* output_shape + structure_preserved: the output is the marker, or one piece per non-comment token, in order,
    joined by single spaces; a sensitive token (ID / STRING / INTEGRAL / FLOAT / HEXNUM / HEX / BIT_LITERAL, or any
@@ -63,6 +63,26 @@ Theorem C45_no_leak_refuted_when_walk_misses_keyword_name :
     = [67;82;69;65;84;69;32;84;65;66;76;69;32;96;110;49;96;32;40;32;112;97;115;115;119;111;114;100;32;73;78;84;32;41]%N.
 Proof. eexists. eexists. exact leak_witness. Qed.
 Print Assumptions C45_no_leak_refuted_when_walk_misses_keyword_name.
+
+(* concurrency: the RLock/Lock double-checked protocol (read section, then write section with re-check; each section
+   one atomic step) under EVERY schedule of ANY number of goroutines with ANY programs on one fresh Mapping: the
+   Mapping stays well formed — keys distinct, placeholders exactly n1..nK / v1..vK (no gap, no repetition) — and over
+   all results returned to all goroutines, equal (namespace, lexeme) <-> equal placeholder *)
+Theorem C45_interleavings_functional_injective :
+  forall progs sched,
+    let r := run_sched true empty_mapping (map start progs) sched in
+    WFm (fst r) /\
+    forall th1 th2 c1 t1 c2 t2, In th1 (snd r) -> In th2 (snd r) -> In (c1, t1) (outs th1) -> In (c2, t2) (outs th2) ->
+      (c1 = c2 <-> t1 = t2).
+Proof. exact interleavings_functional_injective. Qed.
+Print Assumptions C45_interleavings_functional_injective.
+
+(* the cold-mint race: without the re-check under the write lock the schedule [0;1;0;1] gives one lexeme n1 AND n2 *)
+Example C45_without_recheck_refuted :
+  let r := run_sched false empty_mapping (map start [[CIdent [97%N]]; [CIdent [97%N]]]) [0; 1; 0; 1] in
+  map outs (snd r) = [[(CIdent [97%N], ntok 1)]; [(CIdent [97%N], ntok 2)]] /\ ncount (fst r) = 2.
+Proof. exact without_recheck_refuted. Qed.
+Print Assumptions C45_without_recheck_refuted.
 
 Example C45_nonvacuous :
   redact_seq empty_mapping
